@@ -28,4 +28,6 @@ _envimp.generate(core.REPO, core.LEAN / "Pun/Gen/EnvImpGen.lean")
 from pv.translator import numops as _numops
 _numops.generate(core.REPO, core.LEAN / "Pun/Gen/NumOpsGen.lean")
 _frechet.generate_corners(core.REPO, core.LEAN / "Pun/Gen/CornersGen.lean")
+from pv.translator import cuts as _cuts
+_cuts.generate(core.REPO, core.LEAN / "Pun/Gen/CutsGen.lean")
 print("generated")
